@@ -338,6 +338,37 @@ pub fn run_c17(mut rep: Report) -> i32 {
             }
         }
     }
-    rep.assume("lagged receivers (broadcast overflow) are produced by the channel capacity chosen by p2panda-net and are covered only if the capacity is small enough to overflow with the thorough tier's sequences");
+    // Lagged receivers: the broadcast channel of a gossip subscription holds 128 items.  Overflow it
+    // (the receiver is not polled meanwhile) with every pattern of a short cycle of item kinds, then
+    // drive by wake-ups: the valid messages still in the channel must all come out.
+    let over = 128 + 40;
+    for cycle_len in 1..=3usize {
+        for code in 0..3u32.pow(cycle_len as u32) {
+            let cycle: Vec<Item> = (0..cycle_len).map(|i| alphabet[((code / 3u32.pow(i as u32)) % 3) as usize]).collect();
+            let seq: Vec<Item> = (0..over).map(|i| cycle[i % cycle_len]).collect();
+            rep.eval();
+            rep.state(&("lag", &cycle));
+            let items: Vec<Vec<u8>> = seq.iter().enumerate().map(|(i, it)| mk(*it, i)).collect();
+            let (sub, tx) = rig.subscription();
+            let (got, polls, spun) = feed_and_drain(sub, &tx, &items);
+            rep.transitions += polls;
+            // the channel keeps the newest 128 items; the oldest retained valid ones must be yielded
+            let retained_valid: Vec<String> = seq.iter().enumerate().skip(over - 128).filter(|(_, it)| **it == Item::Valid).map(|(i, _)| format!("m{i}")).collect();
+            let got_bodies: Vec<String> = got.iter().map(|g| g.2.clone()).collect();
+            let replay = json!({"part": "lagged", "cycle": format!("{cycle:?}"), "items": over});
+            rep.nontrivial(&("lag", &cycle));
+            rep.outcome(&("lag", got_bodies.len(), retained_valid.len()));
+            if spun {
+                rep.violation("subscription-spins", format!("lagged receiver, cycle {cycle:?}"), replay);
+            } else if got_bodies != retained_valid {
+                rep.violation(
+                    "stall/lagged-receiver-does-not-recover",
+                    format!("{over} items (cycle {cycle:?}) sent before the first poll: the subscription yielded {} messages after {polls} poll(s) and parked; {} valid messages are retained by the channel", got_bodies.len(), retained_valid.len()),
+                    replay,
+                );
+            }
+        }
+    }
+    rep.assume("the broadcast channel of a gossip subscription holds 128 items (p2panda-net gossip manager); a lagging receiver is produced by sending 168 items before the first poll");
     rep.finish()
 }
